@@ -2,6 +2,7 @@ package main
 
 import (
 	"fmt"
+	"go/types"
 	"sort"
 	"strings"
 
@@ -443,7 +444,24 @@ func c17Samples(w *World, r *Report) {
 }
 
 // packetLoops: loops in fn that range over BinaryModel.Packets or BinaryModel.PacketsMap (header block -> loop blocks).
+var packetLoopsMemo = map[*ssa.Function][]map[*ssa.BasicBlock]bool{}
+var packetLoopsBusy = map[*ssa.Function]bool{}
+
 func packetLoops(fn *ssa.Function) []map[*ssa.BasicBlock]bool {
+	if out, ok := packetLoopsMemo[fn]; ok {
+		return out
+	}
+	if packetLoopsBusy[fn] {
+		return nil // a list that is defined in terms of itself is not a list of the declared packets
+	}
+	packetLoopsBusy[fn] = true
+	out := packetLoopsOf(fn)
+	delete(packetLoopsBusy, fn)
+	packetLoopsMemo[fn] = out
+	return out
+}
+
+func packetLoopsOf(fn *ssa.Function) []map[*ssa.BasicBlock]bool {
 	var out []map[*ssa.BasicBlock]bool
 	forEachInstr(fn, func(b *ssa.BasicBlock, ins ssa.Instruction) {
 		switch x := ins.(type) {
@@ -460,14 +478,10 @@ func packetLoops(fn *ssa.Function) []map[*ssa.BasicBlock]bool {
 				}
 			}
 		case *ssa.IndexAddr:
-			if ld, ok := x.X.(*ssa.UnOp); ok {
-				if fa, ok := ld.X.(*ssa.FieldAddr); ok {
-					if tn, f, _, _ := fieldOf(fa); tn == "BinaryModel" && f == "Packets" {
-						if bo, ok := x.Index.(*ssa.BinOp); ok {
-							if phi, ok := bo.X.(*ssa.Phi); ok && phi.Comment == "rangeindex" {
-								out = append(out, naturalLoop(phi.Block()))
-							}
-						}
+			if listOfDeclaredPackets(x.X, 0, map[ssa.Value]bool{}) {
+				if bo, ok := x.Index.(*ssa.BinOp); ok {
+					if phi, ok := bo.X.(*ssa.Phi); ok && phi.Comment == "rangeindex" {
+						out = append(out, naturalLoop(phi.Block()))
 					}
 				}
 			}
@@ -476,9 +490,65 @@ func packetLoops(fn *ssa.Function) []map[*ssa.BasicBlock]bool {
 	return out
 }
 
+// listOfDeclaredPackets: v is BinaryModel.Packets, or a packet slice made from it - returned by a repo function that itself loops
+// over the declared packets, or accumulated (append) in such a loop of the same function.
+func listOfDeclaredPackets(v ssa.Value, depth int, seen map[ssa.Value]bool) bool {
+	v = stripIdentity(v)
+	if depth > 4 || seen[v] {
+		return false
+	}
+	seen[v] = true
+	switch x := v.(type) {
+	case *ssa.UnOp:
+		if fa, ok := x.X.(*ssa.FieldAddr); ok {
+			tn, f, _, _ := fieldOf(fa)
+			return tn == "BinaryModel" && f == "Packets"
+		}
+		if al, ok := x.X.(*ssa.Alloc); ok && al.Referrers() != nil {
+			for _, ref := range *al.Referrers() {
+				if st, ok := ref.(*ssa.Store); ok && st.Addr == ssa.Value(al) && listOfDeclaredPackets(st.Val, depth+1, seen) {
+					return true
+				}
+			}
+		}
+	case *ssa.Slice:
+		return listOfDeclaredPackets(x.X, depth+1, seen)
+	case *ssa.Phi:
+		for _, e := range x.Edges {
+			if listOfDeclaredPackets(e, depth+1, seen) {
+				return true
+			}
+		}
+	case *ssa.Call:
+		if bi, ok := x.Call.Value.(*ssa.Builtin); ok && bi.Name() == "append" && len(x.Call.Args) > 0 {
+			// accumulated inside a loop over the declared packets
+			for _, lp := range packetLoops(x.Parent()) {
+				if lp[x.Block()] {
+					return true
+				}
+			}
+			return listOfDeclaredPackets(x.Call.Args[0], depth+1, seen)
+		}
+		if f := x.Call.StaticCallee(); f != nil && f.Blocks != nil && theWorld != nil && theWorld.isSubjectFunc(f) {
+			sl, ok := x.Type().Underlying().(*types.Slice)
+			if !ok || modelTypeName(sl.Elem()) != "Packet" {
+				return false
+			}
+			return len(packetLoops(f)) > 0
+		}
+	}
+	return false
+}
+
 func c17Coverage(w *World, wc *wireCtx, r *Report) {
-	const rule = "C17/test-per-packet"
-	// each codec generator has a loop over the packets that (transitively) reaches a test emitter
+	packetLoopReaches(w, wc, r, "C17/test-per-packet", "test", "a test is emitted for every packet", "no loop over the packet list/map under this generator reaches a test emitter")
+	// ... and the tests' subjects exist: the emitted tests name the codec type of every declared packet, so the codec emitters have to be
+	// driven by the declared packets as well (not by what the root packet happens to lead to)
+	packetLoopReaches(w, wc, r, "C17/codec-per-packet", "enc", "the codec its test uses is emitted for every declared packet", "no loop over the packet list/map under this generator reaches the encoder emitter: a declared packet the root does not lead to has a test (which names its type) but no type")
+}
+
+// packetLoopReaches: each codec generator has a loop over the declared packets that (transitively) reaches an emitter of the role.
+func packetLoopReaches(w *World, wc *wireCtx, r *Report, rule, role, what, failure string) {
 	for _, l := range codecLangs {
 		found := false
 		pos := ""
@@ -504,7 +574,7 @@ func c17Coverage(w *World, wc *wireCtx, r *Report) {
 							return
 						}
 						seen[g] = true
-						if roleOf(g) == "test" || reach(g, nil, depth+1) {
+						if roleOf(g) == role || reach(g, nil, depth+1) {
 							hit = true
 						}
 					})
@@ -516,11 +586,11 @@ func c17Coverage(w *World, wc *wireCtx, r *Report) {
 				}
 			}
 		}
-		key := l + ": a test is emitted for every packet"
+		key := l + ": " + what
 		if found {
 			r.pass(rule, key, pos, "")
 		} else {
-			r.fail(rule, key, pos, "no loop over the packet list/map under this generator reaches a test emitter")
+			r.fail(rule, key, pos, failure)
 		}
 	}
 }
